@@ -24,6 +24,4 @@ func (e *Engine) registerPackageTags() {
 	}
 }
 
-func (e *Engine) checkProperty(verif, prop, tier string, t0 time.Time) int {
-	return 2
-}
+var _ = time.Now
